@@ -89,11 +89,7 @@ fn compile_field_values<E: quiver_core::effects::Effect>(
                 });
                 // A narrowing recorded by this field's match must not outlive the field: the
                 // fields after it are evaluated whether or not the match succeeded.
-                let narrowings_before: Vec<_> = compiler
-                    .scopes
-                    .iter()
-                    .map(|scope| scope.narrowings.clone())
-                    .collect();
+                let narrowings_before = super::scopes::save_narrowings(&compiler.scopes);
                 let (type_id, _) = compiler.compile_chain_with_input(
                     chain.clone(),
                     None,
@@ -103,9 +99,7 @@ fn compile_field_values<E: quiver_core::effects::Effect>(
                     false,
                     None,
                 )?;
-                for (scope, narrowings) in compiler.scopes.iter_mut().zip(narrowings_before) {
-                    scope.narrowings = narrowings;
-                }
+                super::scopes::restore_narrowings(&mut compiler.scopes, narrowings_before);
                 compiled_values.push(CompiledValue::Field {
                     name: field.name.clone(),
                     type_id,
